@@ -4,6 +4,7 @@
   `parseScript`/`unparse` = interpreter.DefaultOpcodeParser.Parse/Unparse; `opLength` is checked against the
   regenerated interpreter.opcodeArray; the ASM name tables are the regenerated bscript.opCodeValues/opCodeStrings.
 -/
+import GoBT.Script.ParseUnparse
 import GoBT.Script.Parse
 import GoBT.Script.Asm
 import GoBT.Script.TableFacts
@@ -615,5 +616,14 @@ example : ∃ enc, encodeParts [[0xaa], List.replicate 76 1, List.replicate 256 
 
 example : parseScript [0x51, 0x6a, 0x01, 0x02, 0x03] = .ok [⟨0x51, [], 1⟩, ⟨0x6a, [], 1⟩, ⟨0x01, [0x02, 0x03], 3⟩] := by
   rfl
+
+/-- **The converse round trip**: unparsing a list of well-formed parsed opcodes (each in the shape the parser produces for
+    its opcode value — direct pushes of 1..75 bytes, PUSHDATA1/2/4 with their length fields, data-less opcodes — and no
+    OP_RETURN, whose tail the parser keeps as one blob) and parsing the bytes gives the list back, for pushes of every
+    length up to 2^32. -/
+theorem parse_unparse_round_trip (errCS : Bool) (ops : List POp) (bytes : Bytes)
+    (hall : ∀ o ∈ ops, o.WF ∧ o.op ≠ opRETURN ∧ (errCS = true → requiresTx o.op = false))
+    (hb : unparse ops = .ok bytes) (hlen : ops.length ≤ bytes.length) : parseScript bytes errCS = .ok ops :=
+  parseScript_unparse errCS ops bytes hall hb hlen
 
 end GoBT.C13
